@@ -132,10 +132,14 @@ Fixpoint sweep (fn : func) (ins : list regset) (top : regset) (bs : list block) 
     sweep fn ins' top r (N.succ i)
   end.
 
+Definition total_size (ins : list regset) : nat := fold_left (fun n s => (n + length s)%nat) ins O.
+
+(* the sets only shrink, so a sweep that keeps the total size has reached the fixpoint *)
 Fixpoint iterate (n : nat) (fn : func) (ins : list regset) (top : regset) : list regset :=
   match n with
   | O => ins
-  | S k => iterate k fn (sweep fn ins top (fn_blocks fn) 0) top
+  | S k => let ins' := sweep fn ins top (fn_blocks fn) 0 in
+           if Nat.eqb (total_size ins') (total_size ins) then ins' else iterate k fn ins' top
   end.
 
 Definition compute_in (fn : func) : list regset :=
